@@ -701,13 +701,25 @@ func (g *fedGen) inject(kind string) {
 	case "field-args-differ":
 		fa := gField{Name: "x", Type: "Int", Args: []gArg{{Name: "a", Type: "Int"}}}
 		fb := gField{Name: "x", Type: "Int"}
-		switch r.Intn(4) {
+		switch r.Intn(7) {
 		case 0:
 			fb.Args = []gArg{{Name: "a", Type: "String"}}
 		case 1:
 			fb.Args = []gArg{{Name: "a", Type: "Int", Default: "5"}}
 		case 2:
 			fb.Args = []gArg{{Name: "a", Type: "Int"}, {Name: "b", Type: "Int"}}
+		case 4: // the copies differ only in a LIST default
+			fa.Args = []gArg{{Name: "a", Type: "[Int]", Default: "[1]"}}
+			fb.Args = []gArg{{Name: "a", Type: "[Int]", Default: "[2, 3]"}}
+		case 5: // a list default on one side only
+			fa.Args = []gArg{{Name: "a", Type: "[String]", Default: `["x"]`}}
+			fb.Args = []gArg{{Name: "a", Type: "[String]"}}
+		case 6: // the copies differ only in an INPUT-OBJECT default
+			for _, s := range []*gService{a, b} {
+				s.Types = append(s.Types, &gType{Kind: "input", Name: "Xrange", Fields: []gField{{Name: "from", Type: "Int"}, {Name: "to", Type: "Int"}}})
+			}
+			fa.Args = []gArg{{Name: "a", Type: "Xrange", Default: "{from: 0, to: 10}"}}
+			fb.Args = []gArg{{Name: "a", Type: "Xrange", Default: "{from: 0, to: 100}"}}
 		}
 		if r.Chance(1, 2) {
 			fa, fb = fb, fa
@@ -987,6 +999,17 @@ func getURLQueries(o mgOutcome, urls []string) [][]string {
 		qs = qs[:60]
 	}
 	return qs
+}
+
+// implGetURLOp: GetURL as the planner calls it while planning an operation of the given kind (the
+// answer for a field of a root type must not depend on which operation is being planned).
+func implGetURLOp(o mgOutcome, kind ast.Operation, typename, fieldname, fallback string) string {
+	pc := &planner.PlanningContext{TypeURLMap: o.tm, Operation: &ast.OperationDefinition{Operation: kind}}
+	u, err := pc.GetURL(typename, fieldname, fallback)
+	if err != nil {
+		return "err"
+	}
+	return "ok:" + u
 }
 
 func implGetURL(o mgOutcome, qs [][]string) []string {
